@@ -376,6 +376,30 @@ func levelTextChecks(rng *rand.Rand, nrand int) (finds []Finding) {
 			add("C20/invalid-text-accepted:unicode-case-fold", "Level.UnmarshalText(%q) was accepted as %v", txt, got)
 		}
 	}
+	// level names with some letters replaced by every non-ASCII byte that shares their low bits (a sloppy case fold
+	// that masks bits would accept them): none of these spells a level
+	for name := range map[string]bool{"debug": true, "info": true, "warn": true, "error": true, "dpanic": true, "panic": true, "fatal": true, "warning": true} {
+		for pos := 0; pos < len(name); pos++ {
+			for _, mask := range []byte{0x80, 0xA0, 0x40 | 0x80} {
+				b := []byte(name)
+				b[pos] = (b[pos] & 0x1f) | mask | (b[pos] & 0x40)
+				if b[pos] < 0x80 {
+					continue
+				}
+				for _, all := range []bool{false, true} {
+					txt := append([]byte(nil), b...)
+					if all {
+						for q := range txt {
+							txt[q] = (txt[q] & 0x5f) | 0x80 | (name[q] & 0x20)
+						}
+					}
+					got := zapcore.Level(3)
+					err := got.UnmarshalText(txt)
+					checkParse(add, "Level.UnmarshalText(high-bit bytes)", string(txt), false, 0, 3, got, err)
+				}
+			}
+		}
+	}
 	// empty string reads as info
 	var e zapcore.Level = zapcore.ErrorLevel
 	if err := e.UnmarshalText([]byte("")); err != nil || e != zapcore.InfoLevel {
